@@ -133,7 +133,14 @@ def check_text(text, labels):
         # a trailing empty line is dropped by splitlines
         labels = labels[:len(exp)]
     try:
-        parts = P.DoctestParser().parse(text)
+        parser = P.DoctestParser()
+        if REUSE_PARSER[0]:
+            # the same parser object has just failed on another docstring (a broken statement in its third chunk)
+            try:
+                parser.parse(">>> a = 1\n>>> print(a)\n1\n>>> print(a + 1)\n2\n>>> b = 3 = 5\n")
+            except exceptions.DoctestParseError:
+                pass
+        parts = parser.parse(text)
     except exceptions.DoctestParseError as ex:
         raise Violation('parse_error:' + type(ex.orig_ex).__name__,
                         'well-formed docstring rejected: {!r}\n{}'.format(ex.orig_ex, text))
@@ -192,10 +199,17 @@ def check_case(case, ctx):
         labels = [(lab, True) for lab, _ in labels]
         return check_text(text, labels)
     text, L = to_text(case)
-    return check_text(text, [(lab, hack) for lab, _, hack in L])
+    REUSE_PARSER[0] = bool(case.get('reuse'))
+    try:
+        return check_text(text, [(lab, hack) for lab, _, hack in L])
+    finally:
+        REUSE_PARSER[0] = False
 
 
 # ---------------------------------------------------------------------------
+
+
+REUSE_PARSER = [False]     # set per case by check_case (a parser object re-used after a failed parse)
 
 
 @composite
@@ -259,7 +273,10 @@ def block_strategy(D, max_blocks=7):
             state = 'want' if want else 'src'
     n_lines = len(assemble(blocks))
     tab_lines = D.subset(range(n_lines)) if D.chance(1, 4) else []
-    return {'blocks': blocks, 'tab_lines': tab_lines, 'final_newline': D.chance(3, 4), 'features': sorted(feats)}
+    reuse = D.chance(1, 5)
+    if reuse:
+        feats.add('parser_reused_after_failure')
+    return {'blocks': blocks, 'tab_lines': tab_lines, 'final_newline': D.chance(3, 4), 'features': sorted(feats), 'reuse': reuse}
 
 
 def _classify(case, ctx):
